@@ -117,6 +117,8 @@ def build(tier, seed):
                 continue      # num_grad total least squares is slow: two models in the quick tier, all in thorough
             cases.append({'kind': 'tls', 'model': model, 'num_grad': ng})
     cases.append({'kind': 'tls-limit'})
+    # call history: fits after fits (same function object, equal correlation matrices, loose tolerances before)
+    cases.append({'kind': 'fit-sequence'})
     # call history: three models that share one code object (closures from a factory), fitted in every order
     for order in itertools.permutations(range(3)):
         cases.append({'kind': 'ls-factory', 'order': list(order)})
@@ -144,6 +146,8 @@ def run_case(case):
             run_ls_method(pe, acc, case)
         elif case['kind'] == 'ls-factory':
             run_ls_factory(pe, acc, case)
+        elif case['kind'] == 'fit-sequence':
+            run_fit_sequence(pe, acc, case)
         else:
             run_tls_limit(pe, acc, case)
     return acc
@@ -265,6 +269,97 @@ def run_ls(pe, acc, case):
     acc.count('refits', 4 * len(sources))
     acc.count('sensitivity-coefficients-compared', len(sources) * npar)
     acc.sample(dict(case, points=n))
+
+
+def _same_fit(res, exp, npar, tolv, told):
+    for j in range(npar):
+        g, e = res.fit_parameters[j], copy.deepcopy(exp.fit_parameters[j])
+        e.gamma_method()
+        if not abs(g.value - e.value) <= tolv * e.dvalue:
+            return 'parameter %d: %.12g instead of %.12g (error %.3g)' % (j, g.value, e.value, e.dvalue)
+        if sorted(g.names) != sorted(e.names):
+            return 'parameter %d lives on %s instead of %s' % (j, g.names, e.names)
+        for nm in e.deltas:
+            sc = np.max(np.abs(e.deltas[nm])) + 1e-300
+            if not np.max(np.abs(g.deltas[nm] - e.deltas[nm])) <= told * sc:
+                return 'fluctuations of parameter %d on %s deviate by %g (scale %g)' % (j, nm, np.max(np.abs(g.deltas[nm] - e.deltas[nm])), sc)
+    return None
+
+
+def run_fit_sequence(pe, acc, case):
+    """Every fit is compared with the same fit made through an independent route (the same model as a different function
+    object, resp. the sensitivity oracle of the single-fit cases) after other fits have been made."""
+    a = anp()
+    f = models()['exp'][0]
+    f_twin = lambda p, x: p[0] * a.exp(-p[1] * x)          # the same model, another function object
+    guess = models()['exp'][3]
+    n = 6
+    # (a) correlated fits of data sets on independent ensembles: the estimated correlation matrix is the identity for both,
+    #     the errors differ
+    sets = []
+    for k in range(3):
+        xk, yk = make_data(pe, 'exp', n, 'indep', ('seq', k))
+        yk = [y * (1.0 + 0.0 * k) for y in yk]
+        r = alpha.rng('c08seq', k)
+        yk = [pe.Obs([y.value + (0.02 + 0.05 * k) * (1 + i % 3) * r.normal(size=30)], ['Q%d_%d|r1' % (k, i)]) for i, y in enumerate(yk)]
+        [y.gamma_method() for y in yk]
+        sets.append((xk, yk))
+    for order in itertools.permutations(range(3)):
+        for pos, k in enumerate(order):
+            xk, yk = sets[k]
+            sub = dict(case, part='correlated-independent', order=list(order), position=pos)
+            try:
+                res = pe.least_squares(xk, yk, f, silent=True, initial_guess=guess, correlated_fit=True)
+                exp = pe.least_squares(xk, yk, f_twin, silent=True, initial_guess=guess)      # identity correlation: same as uncorrelated
+                bad = _same_fit(res, exp, 2, 1e-4, 1e-5)
+            except Exception as e:
+                bad = 'raised %s: %s' % (type(e).__name__, e)
+            if bad:
+                acc.fail('fit-sequence:correlated', sub, 'correlated fit of data set %d (independent ensembles) as number %d of the order %s: %s' % (k, pos + 1, list(order), bad))
+            else:
+                acc.ok(('fseq-corr', order, k), True, 'fit-sequence')
+    # (b) a loose tolerance in one fit must not be the tolerance of the next one
+    xs, ys = make_data(pe, 'exp', n, 'shared', 'seqtol')
+    base = pe.least_squares(xs, ys, f_twin, silent=True, initial_guess=guess)
+    for method in ('Nelder-Mead', 'Powell', 'migrad'):
+        for tol in (1e-1, 0.5):
+            sub = dict(case, part='tolerance', method=method, tol=tol)
+            try:
+                pe.least_squares(xs, ys, f, silent=True, initial_guess=guess, method=method, tol=tol)
+            except Exception:
+                pass
+            try:
+                res = pe.least_squares(xs, ys, f, silent=True, initial_guess=guess, method=method)
+                bad = _same_fit(res, base, 2, 3e-3, 5e-3)
+            except Exception as e:
+                bad = None if 'did not converge' in str(e) else 'raised %s: %s' % (type(e).__name__, e)
+            if bad:
+                acc.fail('fit-sequence:tolerance', sub, '%s fit with the default tolerance after a %s fit with tol=%g: %s' % (method, method, tol, bad))
+            else:
+                acc.ok(('fseq-tol', method, tol), True, 'fit-sequence')
+    # (c) total least squares with the SAME function object on data sets with different x errors
+    tsets = []
+    for k in range(3):
+        xv, ysk = make_data(pe, 'exp', n, 'indep', ('tseq', k))
+        r = alpha.rng('c08tseq', k)
+        xo = [pe.Obs([xv[i] + (0.01 + 0.04 * k) * (1 + (i + k) % 2) * r.normal(size=25)], ['X%d_%d|r1' % (k, i)]) for i in range(n)]
+        [o.gamma_method() for o in xo]
+        tsets.append((xo, ysk))
+    for order in itertools.permutations(range(3)):
+        for pos, k in enumerate(order):
+            xo, ysk = tsets[k]
+            sub = dict(case, part='tls-same-function', order=list(order), position=pos)
+            try:
+                res = pe.total_least_squares(xo, ysk, f, silent=True, initial_guess=guess)
+                exp = pe.total_least_squares(xo, ysk, [lambda p, x: p[0] * a.exp(-p[1] * x), lambda p, x: p[0] * a.exp(-(p[1] * x)), lambda p, x: a.exp(-p[1] * x) * p[0]][k], silent=True, initial_guess=guess)
+                bad = _same_fit(res, exp, 2, 1e-5, 1e-6)
+            except Exception as e:
+                bad = 'raised %s: %s' % (type(e).__name__, e)
+            if bad:
+                acc.fail('fit-sequence:tls', sub, 'total least squares of data set %d with the same function object as number %d of the order %s: %s' % (k, pos + 1, list(order), bad))
+            else:
+                acc.ok(('fseq-tls', order, k), True, 'fit-sequence')
+    acc.sample(dict(case, parts=['correlated fits on independent ensembles in every order', 'default tolerance after loose tolerance', 'total least squares with one function object on three data sets in every order']))
 
 
 def run_ls_factory(pe, acc, case):
